@@ -88,6 +88,9 @@ def gen_element(rng, kind):
 			ps.pop(k, None)
 	else:
 		v = (u''.join(rng.choice(u'abcSID_') for _ in range(rng.randrange(1, 5))), u''.join(rng.choice(u'abc123-_.') for _ in range(rng.randrange(0, 6))))
+		if rng.random() < 0.1:
+			# cookie names are case-sensitive tokens, also when they begin like an attribute name
+			v = (rng.choice([u'PathToken', u'SecureContext', u'Expires-At', u'DomainX', u'Max-Age2', u'HttpOnlyX', u'PATH', u'Secure', u'SID', u'sid', u'ExpiresIn']), v[1])
 		if kind == 'cookie':
 			ps = {}     # a Cookie field is a "; "-separated list of pairs: no parameters
 		else:
@@ -196,6 +199,9 @@ def guard2047(text):
 	return b'=?' in text and b'"=?' not in text and b'==?' not in text
 
 
+COOKIE_ATTRS = (u'httponly', u'secure', u'path', u'domain', u'max-age', u'expires')
+
+
 def classify(els):
 	"""known-finding class of an element list, or None"""
 	fid = None
@@ -205,6 +211,8 @@ def classify(els):
 	except Exception:
 		pass
 	for kind, v, ps in els:
+		if kind in ('cookie', 'setcookie') and v[0].lower() in COOKIE_ATTRS and v[0] != v[0].lower():
+			fid = fid or 'F67'
 		vt = v if isinstance(v, str) else v[0] + v[1]
 		try:
 			vt.encode('latin-1')
@@ -259,12 +267,33 @@ def oracle(case):
 		return (o.value, sorted((k if isinstance(k, bytes) else k.encode(), v if not isinstance(v, bytes) else v.decode('utf-8', 'replace')) for k, v in o.params.items()))
 	exp = [(o.value, sorted((k if isinstance(k, bytes) else k.encode(), v) for k, v in o.params.items())) for o in objs]
 	got = [canon(o) for o in back]
+	# the same through a header collection, twice: what a caller does to the elements it was handed does not show in a later reading
+	if not fid:
+		from httoop import Headers
+		name = {'generic': 'X-Foo', 'ctype': 'Content-Type', 'cdisp': 'Content-Disposition', 'cookie': 'Cookie', 'setcookie': 'Set-Cookie'}[kind]
+		try:
+			h1 = Headers()
+			dict.__setitem__(h1, name, wire)
+			first = [canon(o) for o in h1.elements(name)]
+			for o in h1.elements(name):
+				o.params['zz-touched'] = 'x'
+				for k in list(o.params.keys()):
+					o.params[k] = 'overwritten'
+			h2 = Headers()
+			dict.__setitem__(h2, name, wire)
+			second = [canon(o) for o in h2.elements(name)]
+		except Exception as e:
+			first = second = None
+		if first is not None and sorted(map(repr, first)) == sorted(map(repr, got)) and second != first:
+			return {'what': 'reading the same field again after the elements of the first reading were changed gives %r, first %r' % (second[:3], first[:3]), 'wire': wire.decode('latin-1'), 'finding': None}
 	# names are compared as the case-insensitive tokens they are (the parser lower-cases them, except the free attributes of cookies)
 	fold = lambda l: [(v, sorted((k.lower(), x) for k, x in ps)) for v, ps in l]
 	if fold(got) != fold(exp):
 		return {'what': 'parse(compose(elements)) differs', 'wire': wire.decode('latin-1'), 'got': repr(got)[:300], 'expected': repr(exp)[:300], 'finding': fid}
 	# ... and against what the caller handed in, not only against what the constructor kept
 	for (kind_, v_, ps_), o in zip(els, back):
+		if kind_ in ('cookie', 'setcookie') and fid in (None, 'F67') and getattr(o, 'cookie_name', v_[0]) != v_[0]:
+			return {'what': 'the cookie name %r came back as %r (cookie names are case-sensitive)' % (v_[0], o.cookie_name), 'wire': wire.decode('latin-1'), 'finding': fid}
 		want = sorted(k.lower().encode() for k, _v in ps_)
 		have = sorted((k if isinstance(k, bytes) else k.encode()).lower() for k in o.params.keys())
 		if want != have and not fid:
